@@ -57,6 +57,23 @@ theorem report_unbuilt_skeleton :
        "if returncode == ReturnCode(0)", "  returncode |= await _report_glob_violations(workflow, reporter)",
        "return"] := by decide
 
+/-- `_report_missing_targets` as modelled by the `invalidTargets` / `missingTargets` / `missingDirs` part of
+`reportUnbuilt`: a requested target that is no regular output is INVALID when it is an attached file in a
+state a target may never have (static, volatile) and sets FAILED; otherwise it is missing and sets WARNING;
+a directory target without a regular output beneath it sets WARNING.  Regenerated from the source by `ast`. -/
+theorem report_missing_targets_skeleton :
+    reportMissingTargetsSkeleton =
+      ["missing_targets = sorted((target for target in workflow.targets if not workflow.is_regular_output(target)))",
+       "invalid_targets = []", "for target in missing_targets",
+       "  file = workflow.find_attached(File, target)",
+       "  if file is not None and file.get_state() in TARGET_FORBIDDEN_STATES",
+       "    invalid_targets.append(target)",
+       "missing_targets = [target for target in missing_targets if target not in invalid_targets]",
+       "missing_target_dirs = sorted((target_dir for target_dir in workflow.target_dirs if not workflow.has_regular_output_under(target_dir)))",
+       "returncode = ReturnCode(0)", "if len(invalid_targets) > 0", "  returncode |= ReturnCode.FAILED",
+       "if len(missing_targets) > 0", "  returncode |= ReturnCode.WARNING",
+       "if len(missing_target_dirs) > 0", "  returncode |= ReturnCode.WARNING", "return"] := by decide +kernel
+
 /-! ## The exit status -/
 
 /-- **The exit status, flag by flag.**  DRAINED iff the scheduler was draining; PENDING iff it was
@@ -67,7 +84,8 @@ not declared static. -/
 theorem returncode_spec (i : Input) :
     ((returnCode i).drained = true ↔ i.draining = true) ∧
     ((returnCode i).pending = true ↔ i.draining = false ∧ anyPending i) ∧
-    ((returnCode i).failed = true ↔ anyFailed i ∨ (CleanBeforeGlobs i ∧ 0 < i.globErrors)) ∧
+    ((returnCode i).failed = true ↔
+      anyFailed i ∨ (i.draining = false ∧ 0 < i.invalidTargets) ∨ (CleanBeforeGlobs i ∧ 0 < i.globErrors)) ∧
     ((returnCode i).warning = true ↔
       i.draining = false ∧ (0 < i.missingTargets ∨ 0 < i.missingDirs ∨ (CleanBeforeGlobs i ∧ 0 < i.globWarnings))) := by
   have hf := nfailed_pos i
@@ -81,19 +99,27 @@ theorem returncode_spec (i : Input) :
   | false =>
     rw [returnCode_running i hd]
     by_cases h1 : 0 < nfailed i <;> by_cases h2 : 0 < ntotal i <;> by_cases h3 : 0 < i.missingTargets <;>
-      by_cases h4 : 0 < i.missingDirs <;>
-      simp [Flags.isZero, Flags.or, reportGlobs, h1, h2, h3, h4, ← hf, ← hp] <;> omega
+      by_cases h4 : 0 < i.missingDirs <;> by_cases h5 : 0 < i.invalidTargets <;>
+      simp [Flags.isZero, Flags.or, reportGlobs, h1, h2, h3, h4, h5, ← hf, ← hp] <;> omega
 
 /-- FAILED implies one of the reasons the property lists (full strength, no side condition). -/
-theorem failed_bit_sound (i : Input) (h : (returnCode i).failed = true) : anyFailed i ∨ 0 < i.globErrors := by
-  rcases (returncode_spec i).2.2.1.mp h with h | ⟨_, h⟩
+theorem failed_bit_sound (i : Input) (h : (returnCode i).failed = true) :
+    anyFailed i ∨ 0 < i.invalidTargets ∨ 0 < i.globErrors := by
+  rcases (returncode_spec i).2.2.1.mp h with h | ⟨_, h⟩ | ⟨_, h⟩
   · exact Or.inl h
-  · exact Or.inr h
+  · exact Or.inr (Or.inl h)
+  · exact Or.inr (Or.inr h)
+
+/-- A requested target that ended the phase as a static file or a volatile output sets the bit
+(unless the phase drained, in which case targets are not looked at). -/
+theorem invalid_target_sets_bit (i : Input) (hd : i.draining = false) (h : 0 < i.invalidTargets) :
+    (returnCode i).failed = true :=
+  (returncode_spec i).2.2.1.mpr (Or.inr (Or.inl ⟨hd, h⟩))
 
 /-- The converse for builds that are clean apart from the glob matches. -/
 theorem failed_bit_complete_partial (i : Input) (hc : CleanBeforeGlobs i) (h : 0 < i.globErrors) :
     (returnCode i).failed = true :=
-  (returncode_spec i).2.2.1.mpr (Or.inr ⟨hc, h⟩)
+  (returncode_spec i).2.2.1.mpr (Or.inr (Or.inr ⟨hc, h⟩))
 
 /-- A FAILED step always sets the bit, draining or not. -/
 theorem failed_step_sets_bit (i : Input) (h : anyFailed i) : (returnCode i).failed = true :=
@@ -119,13 +145,13 @@ def Settled (i : Input) : Prop :=
 
 /-- **Zero means clean.**  An exit status without any flag implies: the scheduler was not
 draining, no attached step is FAILED, every attached step above the need threshold is neither
-PENDING nor (once the builder has stopped) anything but SUCCEEDED, every target is produced, and
-no glob match is unjustified or a built file. -/
+PENDING nor (once the builder has stopped) anything but SUCCEEDED, every target is produced (none is
+missing, none is a static file or a volatile output), and no glob match is unjustified or a built file. -/
 theorem returncode_zero_truth (i : Input) (h : (returnCode i).isZero = true) :
     i.draining = false ∧
     (∀ r ∈ i.steps, r.detached = false → r.state ≠ .failed ∧
       (i.threshold.rank < r.impliedNeed.rank → r.state ≠ .pending ∧ (Settled i → r.state = .succeeded))) ∧
-    i.missingTargets = 0 ∧ i.missingDirs = 0 ∧ i.globWarnings = 0 ∧ i.globErrors = 0 := by
+    i.missingTargets = 0 ∧ i.missingDirs = 0 ∧ i.invalidTargets = 0 ∧ i.globWarnings = 0 ∧ i.globErrors = 0 := by
   obtain ⟨hd, hp, hf, hw⟩ := returncode_spec i
   simp only [Flags.isZero, Bool.and_eq_true, Bool.not_eq_true'] at h
   obtain ⟨⟨⟨h1, h2⟩, h3⟩, h4⟩ := h
@@ -137,10 +163,11 @@ theorem returncode_zero_truth (i : Input) (h : (returnCode i).isZero = true) :
   have np : ¬ anyPending i := fun hx => by rw [hp.mpr ⟨hdr, hx⟩] at h3; cases h3
   have nt : ¬ 0 < i.missingTargets := fun hx => by rw [hw.mpr ⟨hdr, Or.inl hx⟩] at h2; cases h2
   have nd : ¬ 0 < i.missingDirs := fun hx => by rw [hw.mpr ⟨hdr, Or.inr (Or.inl hx)⟩] at h2; cases h2
-  have hclean : CleanBeforeGlobs i := ⟨nf, hdr, np, by omega, by omega⟩
+  have ni : ¬ 0 < i.invalidTargets := fun hx => by rw [hf.mpr (Or.inr (Or.inl ⟨hdr, hx⟩))] at h1; cases h1
+  have hclean : CleanBeforeGlobs i := ⟨nf, hdr, np, by omega, by omega, by omega⟩
   have ngw : ¬ 0 < i.globWarnings := fun hx => by rw [hw.mpr ⟨hdr, Or.inr (Or.inr ⟨hclean, hx⟩)⟩] at h2; cases h2
-  have nge : ¬ 0 < i.globErrors := fun hx => by rw [hf.mpr (Or.inr ⟨hclean, hx⟩)] at h1; cases h1
-  refine ⟨hdr, ?_, by omega, by omega, by omega, by omega⟩
+  have nge : ¬ 0 < i.globErrors := fun hx => by rw [hf.mpr (Or.inr (Or.inr ⟨hclean, hx⟩))] at h1; cases h1
+  refine ⟨hdr, ?_, by omega, by omega, by omega, by omega, by omega⟩
   intro r hr hdet
   refine ⟨fun hs => nf ⟨r, hr, hs, hdet⟩, fun hthr => ⟨fun hs => np ⟨r, hr, hs, hthr, hdet⟩, fun hset => ?_⟩⟩
   have := hset r hr hdet
